@@ -59,6 +59,10 @@ Record setup := {
   s_nsubs : list (string * nat)
 }.
 
+(* Definitions.get_entity_def_by_index: a dict keyed 0..n-1 looked up with index-1 (no negative wrap-around) *)
+Definition entity_by_index (names : list string) (et : Z) : option string :=
+  if (et <=? 0)%Z then None else nth_error names (Z.to_nat (et - 1)).
+
 Section Step.
 Variable St : setup.
 
@@ -347,7 +351,7 @@ Definition step_class (w : world) (c : pclass) (pl : bytes) : world * option err
         '(id, r1) <- get_s 4 pl ;; '(et, r2) <- get_s 2 r1 ;; '(_, r3) <- need 8 r2 ;; '(_, r4) <- need 24 r3 ;;
         r5 <- (match g with Wot => '(_, r) <- need 4 r4 ;; Ok r | _ => Ok r4 end) ;;
         '(val, _) <- binstream r5 ;;
-        name <- (if (et <=? 0)%Z then Err EKey else match nth_error (s_names St) (Z.to_nat (et - 1)) with Some n => Ok n | None => Err EKey end) ;;
+        name <- (match entity_by_index (s_names St) et with Some n => Ok n | None => Err EKey end) ;;
         e <- new_entity id name ;;
         m <- model_of name ;;
         '(cnt, v1) <- get_u 1 val ;;
